@@ -34,17 +34,139 @@ struct Out {
 }
 
 fn run_cli(bin: &str, args: &[String], stdin: Option<&[u8]>) -> Result<Out, String> {
+    run_cli_env(bin, args, stdin, &[], false, None)
+}
+
+/// `env`: variables to set (Some) or remove (None); `clear`: start from an empty environment;
+/// `stdin_file`: connect stdin to this regular file instead of a pipe.
+fn run_cli_env(bin: &str, args: &[String], stdin: Option<&[u8]>, env: &[(&str, Option<&str>)], clear: bool, stdin_file: Option<&str>) -> Result<Out, String> {
     let mut cmd = Command::new(bin);
     cmd.args(args).stdout(Stdio::piped()).stderr(Stdio::piped()).env_remove("RUST_BACKTRACE");
-    cmd.stdin(if stdin.is_some() { Stdio::piped() } else { Stdio::null() });
+    if clear {
+        cmd.env_clear();
+    }
+    for (k, v) in env {
+        match v {
+            Some(v) => cmd.env(k, v),
+            None => cmd.env_remove(k),
+        };
+    }
+    if let Some(f) = stdin_file {
+        cmd.stdin(Stdio::from(std::fs::File::open(f).map_err(|e| format!("open {f}: {e}"))?));
+    } else {
+        cmd.stdin(if stdin.is_some() { Stdio::piped() } else { Stdio::null() });
+    }
     let mut child = cmd.spawn().map_err(|e| format!("spawn {bin}: {e}"))?;
-    if let Some(data) = stdin {
-        let mut si = child.stdin.take().unwrap();
-        let _ = si.write_all(data);
-        drop(si);
+    if stdin_file.is_none() {
+        if let Some(data) = stdin {
+            let mut si = child.stdin.take().unwrap();
+            let _ = si.write_all(data);
+            drop(si);
+        }
     }
     let o = child.wait_with_output().map_err(|e| format!("wait: {e}"))?;
     Ok(Out { code: o.status.code(), stdout: String::from_utf8_lossy(&o.stdout).to_string(), stderr: String::from_utf8_lossy(&o.stderr).to_string() })
+}
+
+/// Process environment, option placement and the kind of file descriptor behind stdin must not matter.
+fn variants(ctx: &Ctx, bin: &str, dir: &str, thorough: bool) {
+    let run = &ctx.run;
+    let s = |v: &[&str]| v.iter().map(|x| x.to_string()).collect::<Vec<String>>();
+    let inputs: Vec<Vec<String>> = vec![s(&["ab", "abb", "a", "AB", "Ab1 #"]), s(&["I\u{130} 36 \u{1f4a9}\u{1f4a9}", "i\u{131}"])];
+    let envs: Vec<(&str, Vec<(&str, Option<&str>)>, bool)> = vec![
+        ("NO_COLOR=1", vec![("NO_COLOR", Some("1"))], false),
+        ("TERM=dumb", vec![("TERM", Some("dumb"))], false),
+        ("TERM unset", vec![("TERM", None)], false),
+        ("LANG=C LC_ALL=C", vec![("LANG", Some("C")), ("LC_ALL", Some("C"))], false),
+        ("LC_ALL=tr_TR.UTF-8", vec![("LC_ALL", Some("tr_TR.UTF-8")), ("LANG", Some("tr_TR.UTF-8"))], false),
+        ("COLUMNS=10", vec![("COLUMNS", Some("10"))], false),
+        ("CLICOLOR=0", vec![("CLICOLOR", Some("0"))], false),
+        ("CLICOLOR_FORCE=1", vec![("CLICOLOR_FORCE", Some("1"))], false),
+        ("HOME=/nonexistent", vec![("HOME", Some("/nonexistent"))], false),
+        ("empty environment", vec![], true),
+    ];
+    let nflags = CLI_FLAGS.len() as u32;
+    let subsets: Vec<u32> = (0..(1u32 << nflags)).filter(|x| x.count_ones() <= if thorough { 2 } else { 1 }).chain([(1 << 12) | (1 << 13), (1 << 13) | (1 << 8), (1 << 13) | (1 << 6)]).collect();
+    let n = std::sync::atomic::AtomicU64::new(0);
+    par_for(subsets.len() * inputs.len(), |j| {
+        let sub = subsets[j / inputs.len()];
+        let tcs = &inputs[j % inputs.len()];
+        let mut bits = 0;
+        let mut flags: Vec<String> = vec![];
+        for (i, (name, b)) in CLI_FLAGS.iter().enumerate() {
+            if sub & (1 << i) != 0 {
+                bits |= b;
+                flags.push(name.to_string());
+            }
+        }
+        if bits & U != 0 && bits & E == 0 {
+            return;
+        }
+        let cfg = Cfg::new(bits);
+        let Ok(expect) = cfg.build(tcs) else { return };
+        let check = |what: String, o: Result<Out, String>, args: &[String]| {
+            run.eval();
+            n.fetch_add(1, Ordering::Relaxed);
+            run.mark_nontrivial(hash_case(&[what.clone()], &cfg) ^ hash_case(tcs, &cfg));
+            match o {
+                Err(e) => run.machinery_error(e),
+                Ok(o) => {
+                    if o.code != Some(0) || o.stdout != format!("{expect}\n") || !o.stderr.is_empty() {
+                        run.violation(viol("C12", "cli", format!("cli-differs-from-library variant={}", what.split(':').next().unwrap_or("")), tcs, &cfg, &o.stdout,
+                            json!({"variant": what, "args": args, "exit": o.code, "stderr": o.stderr.chars().take(300).collect::<String>(), "expected_stdout": format!("{expect}\n")})));
+                    }
+                }
+            }
+        };
+        // environment
+        let mut args = flags.clone();
+        args.push("--".into());
+        args.extend(tcs.iter().cloned());
+        for (name, env, clear) in &envs {
+            check(format!("env:{name}"), run_cli_env(bin, &args, None, env, *clear, None), &args);
+        }
+        // `allow_hyphen_values` on the positional argument (pinned by the repository's own test
+        // `succeeds_with_leading_hyphen`): once the first test case has been seen, everything that follows is a
+        // test case, option look-alikes included. Expected = the library's default build over ALL those strings.
+        if !flags.is_empty() {
+            let mut late: Vec<String> = tcs.clone();
+            late.extend(flags.iter().cloned());
+            let mut mixed: Vec<String> = vec![tcs[0].clone()];
+            mixed.extend(flags.iter().cloned());
+            mixed.extend(tcs[1..].iter().cloned());
+            for (what, list) in [("placement:option look-alikes after the test cases are test cases", late), ("placement:option look-alikes between the test cases are test cases", mixed)] {
+                run.eval();
+                n.fetch_add(1, Ordering::Relaxed);
+                let Ok(exp) = Cfg::new(0).build(&list) else { continue };
+                match run_cli(bin, &list, None) {
+                    Err(e) => run.machinery_error(e),
+                    Ok(o) => {
+                        if o.code != Some(0) || o.stdout != format!("{exp}\n") || !o.stderr.is_empty() {
+                            run.violation(viol("C12", "cli", "cli-differs-from-library variant=placement".into(), &list, &Cfg::new(0), &o.stdout,
+                                json!({"variant": what, "args": list, "exit": o.code, "stderr": o.stderr.chars().take(300).collect::<String>(), "expected_stdout": format!("{exp}\n")})));
+                        }
+                    }
+                }
+            }
+        }
+        // stdin connected to a regular file instead of a pipe
+        let path = format!("{dir}/stdin_{j}.txt");
+        std::fs::write(&path, file_bytes(tcs, false, true)).unwrap();
+        let mut a2 = flags.clone();
+        a2.push("-".into());
+        check("stdin:regular file".into(), run_cli_env(bin, &a2, None, &[], false, Some(&path)), &a2);
+        // the file name given on stdin from a regular file
+        let namefile = format!("{dir}/stdin_name_{j}.txt");
+        std::fs::write(&namefile, format!("{path}\n")).unwrap();
+        let mut a3 = flags.clone();
+        a3.extend(["-f".to_string(), "-".to_string()]);
+        check("stdin:file name from a regular file".into(), run_cli_env(bin, &a3, None, &[], false, Some(&namefile)), &a3);
+        let _ = std::fs::remove_file(&path);
+        let _ = std::fs::remove_file(&namefile);
+    });
+    run.space(json!({"engine": "environment / placement / descriptor variants", "flag_subsets": subsets.len(), "inputs": inputs.len(),
+        "environments": envs.iter().map(|e| e.0).collect::<Vec<_>>(), "placements": ["option look-alikes after / between the test cases are test cases themselves (allow_hyphen_values)"],
+        "stdin": ["regular file as stdin for -", "regular file as stdin for -f -"], "runs": n.load(Ordering::Relaxed)}));
 }
 
 fn tmpdir() -> String {
@@ -249,6 +371,7 @@ pub fn run(ctx: &Ctx) {
     });
     ctx.run.space(json!({"channels": "arguments, -f file, - (stdin), -f - (file name on stdin)", "flag_subsets": feat_subsets.len(), "bound": if thorough {"<=2 of 16 flags"} else {"<=1 of 16 flags"},
         "inputs": feat_inputs.len(), "universe": "content features at line boundaries: BOM, space, tab, VT, FF, NEL, NBSP, U+2028, ZWSP, -, --, #, backslash, quotes, ESC, combining acute, DEL, @, ~ -- at the start of the first / a later line, the end of the first / last line, as a line of its own, and doubled around a letter", "endings": "LF/CRLF x final newline/none"}));
+    variants(ctx, &bin, &dir, thorough);
     // error inputs
     let empty = format!("{dir}/empty.txt");
     std::fs::write(&empty, b"").unwrap();
